@@ -378,6 +378,15 @@ fn excluded_by_known_finding(p: Prop, w: &mut World, o: &Op, known_open: &dyn Fn
             }
         }
     }
+    // KF-C04-4: move of a SHORT-NAME element (takes the name from its old parent and gives one to the new parent, both behind
+    // the back of the path index)
+    if matches!(o.code, op::MOVE | op::MOVE_AT) && known_open("move-of-short-name-element:path-index-not-updated") {
+        if let Some((_pid, sid)) = w.peek_copy_move(o) {
+            if w.elems[sid].element_name() == autosar_data::ElementName::ShortName {
+                return Some("KF-C04-4");
+            }
+        }
+    }
     // KF-C10-1: remove_from_file on the ROOT element
     if o.code == op::REMOVE_FROM_FILE && known_open("root-element-removed-from-a-file") {
         if let Some((eid, _fi)) = w.peek_elem_file(o) {
@@ -451,7 +460,7 @@ pub fn run(ctx: &Ctx, p: Prop) {
     let rule = match p {
         Prop::C03 => "Histories of public API calls (29 operation kinds, symbolic handles incl. stale ones, fixtures: loaded / empty model, optional second model) of length <= 40; after every step the tree is recomputed by own recursion over content() and compared with parent(), position(), get_sub_element_at(), model(), sub_elements() and the model-, element- and depth-limited DFS iterators; stale handles must fail for place-dependent requests and must not change the live model. Non-trivial: a structural edit made a handle stale, or a move/load succeeded; distinct by executed call sequence.",
         Prop::C04 => "Naming-biased histories (rename, direct SHORT-NAME edits, moves, copies, removals, loads/merges, file removal) of length <= 40; after every step the map path -> element derived from the tree (concatenated item names) is compared with identifiable_elements(), get_element_by_path() on all expected, former (ghost) and one-edit paths, Element::path(), and pairwise distinctness. Non-trivial: a successful rename/move/copy/remove/load/SHORT-NAME edit; distinct by executed call sequence.",
-        Prop::C05 => "Reference-biased histories (set_reference_target, text edits of references, clearing, rename/move/copy/delete of references and targets, loads) of length <= 40; after every step the multimap text -> reference elements derived from the tree is compared with ALL keys of the reverse map (hook) and get_references_to(); check_references() must equal the set of references whose target is missing or whose DEST does not fit, and r is outside the report exactly when get_reference_target(r) returns the expected element. Non-trivial: >= 1 successful edit touching a reference or target; distinct by executed call sequence.",
+        Prop::C05 => "Reference-biased histories (set_reference_target, text edits of references, clearing, rename/move/copy/delete of references and targets, loads) of length <= 40; after every step the multimap text -> reference elements derived from the tree is compared with ALL keys of the reverse map (hook) and get_references_to(); check_references() must equal the set of references whose target is missing or whose DEST does not fit, and r is outside the report exactly when get_reference_target(r) returns the expected element. Non-trivial: >= 1 successful edit touching a reference or target; distinct by executed call sequence. Second sub-property (loaded-references): generated documents whose reference texts are padded with white space / line breaks or written with a character reference are loaded (strict and lenient); the same comparison runs after the load and after a rename of a target (non-trivial: a padded or escaped text).",
         Prop::C10 => "File-set histories (create_file, add_to_file, remove_from_file, remove_file, load, set_filename, duplicate, structural edits) on 1-4 files; after every step: local set is a subset of the parent's effective set and of the model's files, every element is in >= 1 file, file.elements_dfs() and the re-loaded file.serialize() equal the projection of the tree onto the file. Non-trivial: a successful structural or file-set edit while the model has >= 2 files; distinct by executed call sequence.",
         Prop::C11 => "Histories in which every call that returns an error (incl. loads failing in the lexer, late in the parser, in the merge, in the overlap check, on a duplicate file name) is framed by a full snapshot (tree with values, attributes, comments, local file sets; identifiable map; path lookups incl. ghost paths; reverse reference map; invalid-reference report; file list): snapshot before == snapshot after. Non-trivial: the history contains a failing call; distinct by executed call sequence.",
     };
@@ -471,6 +480,15 @@ pub fn run(ctx: &Ctx, p: Prop) {
             Err(f) => Outcome::Fail(f),
         }
     });
+    if p == Prop::C05 {
+        // the parser's own registration of references: texts padded with white space / written with character references
+        let n = ctx.tier.pick(4_000u64, 40_000u64);
+        let strat = (proptest::collection::vec((0u8..6, 0u8..6, 0u8..6, proptest::bool::weighted(0.2)), 1..8), any::<bool>());
+        run_prop(ctx, "loaded-references", n, strat, |(refs, strict), st| match run_loaded_refs(&loaded_refs_doc(refs), *strict, st) {
+            Ok(()) => Outcome::Pass,
+            Err(f) => Outcome::Fail(f),
+        });
+    }
 }
 
 /// demonstrations of the open findings that are excluded from the generators by construction
@@ -510,6 +528,24 @@ fn demonstrations(ctx: &Ctx, p: Prop) {
         })();
         if let Some(true) = r {
             ctx.report(Failure::new("copy-of-short-name-element:parent-not-registered-in-path-index", "a SYSTEM-SIGNAL without SHORT-NAME (lenient load) gets the SHORT-NAME 'u' by create_copied_sub_element(<SHORT-NAME> of /p/u): it now reports the path /p/u, which the index still maps to the UNIT only - no uniqueness check, no index entry", json!({"kind": "demonstration", "finding": "KF-C04-3"})));
+        }
+    }
+    if p == Prop::C04 {
+        // KF-C04-4: a SHORT-NAME element MOVED into an element of a named type that has none
+        st.eval();
+        let m = AutosarModel::new();
+        let doc = format!("<?xml version=\"1.0\" encoding=\"utf-8\"?>\n{}<AR-PACKAGES><AR-PACKAGE><SHORT-NAME>p</SHORT-NAME><ELEMENTS><SYSTEM-SIGNAL></SYSTEM-SIGNAL><UNIT><SHORT-NAME>u</SHORT-NAME></UNIT></ELEMENTS></AR-PACKAGE></AR-PACKAGES></AUTOSAR>", crate::inputs::autosar_open(AutosarVersion::Autosar_00050));
+        let r = (|| -> Option<bool> {
+            m.load_buffer(doc.as_bytes(), "lenient.arxml", false).ok()?;
+            let sig = m.root_element().elements_dfs().map(|(_, e)| e).find(|e| e.element_name() == ElementName::SystemSignal)?;
+            let unit = m.get_element_by_path("/p/u")?;
+            let name_elem = unit.get_sub_element(ElementName::ShortName)?;
+            sig.move_element_here(&name_elem).ok()?;
+            // the SYSTEM-SIGNAL is now the element named u; the UNIT has no name any more; the index still says /p/u -> UNIT
+            Some(sig.item_name().as_deref() == Some("u") && unit.item_name().is_none() && m.get_element_by_path("/p/u").is_some_and(|e| e == unit))
+        })();
+        if let Some(true) = r {
+            ctx.report(Failure::new("move-of-short-name-element:path-index-not-updated", "move_element_here(<SHORT-NAME> of the UNIT /p/u) into a SYSTEM-SIGNAL without SHORT-NAME (lenient load) succeeds: the SYSTEM-SIGNAL is now named u, the UNIT has lost its name (which remove_sub_element refuses with ShortNameRemovalForbidden), and the path index still maps /p/u to the nameless UNIT", json!({"kind": "demonstration", "finding": "KF-C04-4"})));
         }
     }
     if p == Prop::C11 {
@@ -552,9 +588,76 @@ fn demonstrations(ctx: &Ctx, p: Prop) {
     ctx.merge(st);
 }
 
+
+// ---------------------------------------------------------------------------------------------
+// C05, second sub-property: references that come from a LOADED document (parser path of the reverse map)
+
+const PADS: [&str; 6] = ["", " ", "\n      ", "\t", " \n ", "\r\n  "];
+
+/// renders the document of a loaded-references case: package /p with SYSTEM-SIGNALs s0..s3 and one I-SIGNAL per reference;
+/// every reference text is a path (existing or dangling), optionally written with a character reference, padded with white space
+pub fn loaded_refs_doc(refs: &[(u8, u8, u8, bool)]) -> String {
+    let mut d = format!("<?xml version=\"1.0\" encoding=\"utf-8\"?>\n{}<AR-PACKAGES><AR-PACKAGE><SHORT-NAME>p</SHORT-NAME><ELEMENTS>", crate::inputs::autosar_open(AutosarVersion::Autosar_00050));
+    for i in 0..4 {
+        d.push_str(&format!("<SYSTEM-SIGNAL><SHORT-NAME>s{i}</SHORT-NAME></SYSTEM-SIGNAL>"));
+    }
+    for (k, (t, a, b, esc)) in refs.iter().enumerate() {
+        let path = match t % 6 {
+            4 => "/p/none".to_string(),
+            5 => "/p".to_string(),
+            i => format!("/p/s{i}"),
+        };
+        let text = if *esc { path.replacen('/', "&#47;", 1) } else { path };
+        d.push_str(&format!("<I-SIGNAL><SHORT-NAME>i{k}</SHORT-NAME><SYSTEM-SIGNAL-REF DEST=\"SYSTEM-SIGNAL\">{}{}{}</SYSTEM-SIGNAL-REF></I-SIGNAL>", PADS[*a as usize % PADS.len()], text, PADS[*b as usize % PADS.len()]));
+    }
+    d.push_str("</ELEMENTS></AR-PACKAGE></AR-PACKAGES></AUTOSAR>");
+    d
+}
+
+pub fn run_loaded_refs(doc: &str, strict: bool, st: &mut Stats) -> Result<(), Failure> {
+    st.eval();
+    let case = json!({"kind": "loaded-refs", "doc": doc, "strict": strict});
+    let mut w = World::new(1);
+    let f = match w.models[0].load_buffer(doc.as_bytes(), "refs.arxml", strict) {
+        Ok((f, _)) => f,
+        Err(e) => {
+            let _ = e;
+            st.class("loaded-refs:load-rejected");
+            return Ok(());
+        }
+    };
+    w.files.push(FileH { model: 0, file: f });
+    let mut padded = false;
+    for stage in ["after-load", "after-rename-of-a-target"] {
+        w.rescan();
+        let s = scan(&mut w, 0);
+        padded |= doc.contains("\n      /") || doc.contains(" /") || doc.contains("\t/") || doc.contains("\t&") || doc.contains(" &#47;");
+        if let Err((sig, m)) = inv_refs(&mut w, 0, &s) {
+            return Err(Failure::new(&format!("loaded-refs:{sig}"), format!("{stage}: {m}\n--- document (strict={strict}) ---\n{doc}"), case));
+        }
+        if stage == "after-load" {
+            if let Some(t) = w.models[0].get_element_by_path("/p/s0") {
+                let _ = t.set_item_name("r0");
+            }
+        }
+    }
+    st.class("loaded-refs:ok");
+    if padded {
+        st.nontrivial(fnv(doc.as_bytes()));
+        if st.want_sample() {
+            st.sample(json!({"loaded_document": doc, "strict": strict}));
+        }
+    }
+    Ok(())
+}
+
 pub fn replay(ctx: &Ctx, p: Prop, case: &Value) {
     let mut st = Stats::new();
-    if let Some(c) = HistCase::from_json(case) {
+    if case["kind"] == "loaded-refs" {
+        if let Err(f) = run_loaded_refs(case["doc"].as_str().unwrap_or(""), case["strict"].as_bool().unwrap_or(true), &mut st) {
+            ctx.report(f);
+        }
+    } else if let Some(c) = HistCase::from_json(case) {
         let known_open = |_: &str| false;
         if let Err(f) = run_history(p, &c, &mut st, &known_open) {
             ctx.report(f);
